@@ -1,9 +1,9 @@
 ----------------------------- MODULE MC_HashFormat -----------------------------
 EXTENDS HashFormat, TLC, Json
-CONSTANTS Fams,      \* set of family records [name, idents, hasRounds, elided, hasSalt, hexnorm, padrepair, rounds]
+CONSTANTS Fams,      \* set of family records [name, idents, hasRounds, elided, hasSalt, hexnorm, padrepair, altb64, rounds]
           DoEmit
 VARIABLES fam, x, parsed, rerendered, done
-Forms == {"canon", "uphex", "dirtypad", "explicit"}
+Forms == {"canon", "uphex", "dirtypad", "explicit", "altb64"}
 Xs(f) == {y \in [ident : f.idents, rounds : f.rounds \cup {Implicit, NoCost}, salt : {"none", "min", "mid", "max"}, chk : {"digest", "none"}, form : Forms] :
             WellFormed(f, y)}
 Init == /\ fam \in Fams /\ x \in Xs(fam) /\ parsed = x /\ rerendered = x /\ done = FALSE
